@@ -18,7 +18,7 @@ ASSUMPTIONS = ["effects user pre_start code performs on other systems are out of
 DOC = {
  "C08.R1": "= C05.R2 + C05.R1: guard created right after the cell constructor on every path, never leaked; cleanup complete on the no-event path too",
  "C08.R2": "cell constructors (cluster): the pid-registration error path unregisters the name before returning; the two constructors agree",
- "C08.R3": "= C10.R3: a name clash returns before any guard exists and reaches no unregister",
+ "C08.R3": "= C10.R3 + C10.R1: a name clash returns before any guard exists and reaches no unregister; the clash test and the insertion are one atomic step (vacant-entry-only insertion: two spawns racing for a free name cannot both succeed, and a later one cannot overwrite the holder)",
  "C08.R4": "= C06.R5: the elected cleanup contains name unregister, pid demonitor/unregister (cluster), pg demonitor_all and leave_all",
  "C08.R5": "ActorPortSet::drop calls close() and a draining try_recv() loop on every receiver-typed field of the struct",
  "C08.R6": "thread-local spawner: the start task travels only inside the abort-on-drop wrapper (reply element type, wrap-before-send); the wrapper is alive across the caller's await and disarmed only after it; its Drop aborts when armed",
@@ -83,6 +83,7 @@ def r2(run, db):
 
 def r3(run, db):
     c10.r3(run, db)
+    c10.r1(run, db)
 
 
 def r4(run, db):
